@@ -474,6 +474,18 @@ def run(res, b, tier, seed):
         cases.append(pipeline.Case("ms%d" % i, {"main.tsh": msrc.encode(), "lib.tsh": LIB.encode()},
                                    meta=dict(expected_out=["200 11 ab xx"], expected_status=0, src=msrc, original=MAIN2 % dict(v="total", f="stride"),
                                              renaming="main-file identifiers spelled %s, %s next to std/strings (its parameter, local and function names)" % (v, f), reserved=[])))
+    # functions of the main file that WRAP functions of the imported file and are their only callers, spelled like the function they wrap, like
+    # another function of that file, like a private one (round 15: C10-H, a "self call" recognised by the spelling at the call site - the
+    # wrapper `Twice` calling `lib.Twice` - was left out of the call graph and the imported function removed as unused)
+    WRAP = ('import lib "lib.tsh"\nfunc %(f)s(n int) int {\n\treturn lib.Twice(n) + 1\n}\nfunc %(g)s() int {\n\tr := lib.Next()\n\treturn r\n}\n'
+            'func %(h)s(n int) int {\n\treturn %(f)s(n) + %(g)s()\n}\nprint(%(f)s(4), %(g)s(), %(h)s(1))\n')
+    for i, (f_, g_, h_) in enumerate([("wrapTwice", "wrapNext", "wrapBoth"), ("Twice", "Next", "Both"), ("Twice", "wrapNext", "wrapBoth"), ("wrapTwice", "Next", "Twice"),
+                                      ("twice", "next", "both"), ("Next", "Twice", "helper"), ("helper", "step", "counter"), ("Twice", "Next", "Total"),
+                                      ("lib", "Twice", "Next"), ("Both", "Next", "Twice")]):
+        wsrc = WRAP % dict(f=f_, g=g_, h=h_)
+        cases.append(pipeline.Case("mw%d" % i, {"main.tsh": wsrc.encode(), "lib.tsh": LIB.encode()},
+                                   meta=dict(expected_out=["9 11 15"], expected_status=0, src=wsrc, original=WRAP % dict(f="wrapTwice", g="wrapNext", h="wrapBoth"),
+                                             renaming="main-file functions spelled %s, %s, %s that wrap (and are the only callers of) the imported Twice and Next" % (f_, g_, h_), reserved=[])))
     # two different files with the SAME base name and equally spelled top-level names: what a name means does not depend on how the
     # files are called either (round 8: C10-A)
     import os as _os
